@@ -144,6 +144,7 @@ type Sim struct {
 	NTrace       int
 	Tasks        int
 	Panic        interface{}
+	BudgetExceeded bool
 	SimTime      time.Duration
 	pctChange    [4]int
 	salt         uint32
@@ -457,6 +458,9 @@ func Run(t *testing.T, cfg Config, root func()) *Sim {
 		})
 	}()
 	active = nil
+	if s.BudgetExceeded {
+		s.Panic = "verifsim: step budget exceeded (livelock or unbounded work)"
+	}
 	for _, f := range afterRunHooks {
 		f()
 	}
@@ -599,7 +603,11 @@ func (s *Sim) loop() {
 			over := s.Steps > s.cfg.MaxSteps
 			s.mu.Unlock()
 			if over {
-				panic("verifsim: step budget exceeded")
+				// Stop scheduling: every task stays parked, the bubble reports a deadlock
+				// (a panic raised here, on the bubble's root goroutine, could not be
+				// recovered by Run), and Run replaces the text.
+				s.BudgetExceeded = true
+				return
 			}
 			p.wake <- struct{}{}
 			continue
